@@ -1615,7 +1615,7 @@ def _t_eval(target, _t, scope):
             # handle the rest of the t_path in recursive calls
             cur = []
             todo = TType()
-            todo.__ops__ = (root,) + t_path[i+2:]
+            todo.__ops__ = (T if root is S else root,) + t_path[i+2:]  # the children are targets, whatever the path started from
             for child in nxt:
                 try:
                     cur.append(_t_eval(child, todo, scope))
